@@ -2,6 +2,8 @@
   C05 — literals reach run time with their exact value and type (string part:
   render → Python's literal reader is the identity).
 -/
+import Pyab.Generated.Config
+import Pyab.Generated.LRTables
 import Pyab.Model.PyStrLit
 import Pyab.Proofs.StrLit
 namespace Pyab.Properties
@@ -51,5 +53,16 @@ theorem C05_string_roundtrip_generated (printable : Nat → Bool) (s : String) (
 
 example : pyScanStr (pyReprStr (fun _ => true) "it's \"q\" \\ \t é").toList
     = some ("it's \"q\" \\ \t é", []) := by decide
+
+
+/-- **table obligation**: predicate operands keep their declared type — pydantic validates the
+    operand union with `smart_union` (exact type first), so `"02134"` stays a string and
+    `9007199254740993` stays an int; tuples of the language are Python tuples -/
+theorem C05_operands_keep_type :
+    (Generated.lrTables.smartUnionTerm && Generated.lrTables.smartUnionGroup && Generated.lrTables.tupleIsTuple) = true := by decide
+
+/-- **table obligation**: strings are rendered with `repr()` both as operands and as salt -/
+theorem C05_strings_rendered_with_repr :
+    (Generated.genCfg.strReprTerm && Generated.genCfg.strReprSalt && Generated.genCfg.tupleRecursive) = true := by decide
 
 end Pyab.Properties
